@@ -10,7 +10,8 @@ DECIDED = ("lockset/ownership premises that make `std::sync::Mutex` give exclusi
            "call); R4.3 the guard-holding types are neither Clone nor Copy, are built at one site each, and Default resolves to the locking "
            "constructor; R4.4 every public function that reaches a code write or an unmap holds `&mut` injector through its receiver, whose "
            "type is only built inside `&mut self` methods of the injector; R4.5 the injector's restore guards are gone before its MutexGuard "
-           "is dropped; R4.6 nothing but the constructions mentions the MutexGuard field")
+           "is dropped; R4.6 nothing but the constructions mentions the MutexGuard field; R4.7 the restore guard's destructor restores on every returning "
+           "path (no edge, e.g. std::thread::panicking(), on which the lock is handed over with the patch still in place)")
 NOT_DECIDED = "scheduler fairness beyond 'the guard is released on every exit' (that is the OS mutex)"
 
 MUTEXGUARD = "std::sync::MutexGuard"
@@ -243,6 +244,9 @@ def run(ck, models, tier):
                 order, why, wh, dfn = teardown_order(tm, inj, cfield, g.adt)
                 empties = order == "lifo" and dfn is not None
                 ok = cidx < lidx or empties
+                # R4.7 ... and "gone" means restored: the guard's destructor restores on every returning path (shared with C02 R2.2)
+                if g.drop_fn:
+                    destructor_always_restores(ck, tm, g, "R4.7")
                 ck.ob("R4.5", "restore-before-release", tm.target, ok,
                       "fields of %s in declaration (= drop) order: %s; guards container `%s` (#%d) vs lock `%s` (#%d); explicit Drop empties the container first: %s" % (
                           short(inj), names, cfield, cidx, lockf[0][1], lidx, empties))
